@@ -353,7 +353,7 @@ def g_inclall(rng):
 
 def g_union(rng):
     A, B, _ = rand_pair(rng)
-    return f"union {A.tok()} {B.tok()}"
+    return f"union {high_states(rng, A, 0.05).tok()} {high_states(rng, B, 0.05).tok()}"
 
 
 def g_unionpre(rng):
@@ -445,7 +445,23 @@ def g_cand(rng):
         k = rng.randint(2, 5)
         A.rules = [(0, (), base)] + [(3, (base + i,), base + i + 1) for i in range(k)]
         A.finals = [base + k] + ([rng.choice(st)] if rng.random() < 0.5 else [])
-    return f"cand {A.tok()}"
+    return f"cand {high_states(rng, A).tok()}"
+
+
+def high_states(rng, A, p=0.12):
+    """state numbers are `size_t`: with probability p the states are renamed into a range that does not fit 32 bits (order-preserving or
+    folded so that two states agree on their low 32 bits)"""
+    if rng.random() >= p:
+        return A
+    st = A.states()
+    if rng.random() < 0.5:
+        m = {q: (1 << 32) + q for q in st}
+    else:
+        m = {q: ((i % 3) << 32) + (q % 7) + 8 * i for i, q in enumerate(st)}
+        lows = {}
+        for q, v in m.items():
+            lows.setdefault(v & 0xFFFFFFFF, []).append(q)
+    return A.renamed(m)
 
 
 def chain_ta(rng):
@@ -978,11 +994,13 @@ def g_lts(rng):
         rel = ",".join(f"{a}.{b}" for (a, b) in sorted(r))
     stage = ""
     if len(edges) >= 2 and rng.random() < 0.12:
-        # two-stage construction: the second stage adds edges over labels the first stage already used (no new label, no new state)
+        # two-stage construction: k edges, init(), the remaining edges, init() again – as a client does that extends a system between two
+        # simulation computations; in half of the cases the second stage only uses labels the first stage already used
         k = rng.randint(1, len(edges) - 1)
-        seen = {b for (_, b, _) in edges[:k]}
-        mx = max(seen)
-        edges = edges[:k] + [e for e in edges[k:] if e[1] <= mx]
+        if rng.random() < 0.5:
+            seen = {b for (_, b, _) in edges[:k]}
+            mx = max(seen)
+            edges = edges[:k] + [e for e in edges[k:] if e[1] <= mx]
         if len(edges) > k:
             stage = f" st={k}"
     es = ";".join(f"{a},{b},{c}" for (a, b, c) in edges) or "-"
@@ -1180,6 +1198,9 @@ def g_mth(rng, rc=False):
             steps.append(f"paths!{i}")
         else:
             steps.append(f"getv!{i}!{rand_asgn(rng, MT_NQ, 0.4)}")
+    if rc and live and rng.random() < 0.03:
+        # a BURST of copies of one diagram (more simultaneous references to a node than a narrow counter can hold), all destroyed again
+        steps.insert(rng.randint(2, len(steps)), f"burst!{live[0][0]}!{rng.choice([300, 70000, 66000])}") if live[0][0] < 2 else None
     return ("mthrc " if rc else "mth ") + " ".join(steps)
 
 
@@ -1210,6 +1231,15 @@ def g_bddtd(rng):
         rules.append((3, (1,), 1))
         rng.shuffle(rules)
         return f"bddtd {TA(rules, [0]).tok()}"
+    if rng.random() < 0.02:
+        # a rule of the LARGEST legal arity (63) and its neighbours: the 6-bit arity prefix of the top-down encoding at its limits
+        ar = rng.choice([63, 63, 62, 33, 32])
+        rules = [(0, (), 0), (1, (), 1), (2, tuple([0] * ar), 2), (3, (2,), 2)]
+        if rng.random() < 0.5:
+            rules.append((4, tuple([1] + [0] * (ar - 1)), 2))
+        A = TA(rules, [2])
+        B = TA([r for r in rules if r[0] != 4] + [(5, (0,), 1)], [2])
+        return f"bddtd {A.tok()} {B.tok()}"
     if rng.random() < 0.6:
         # the converted automaton meets a natively loaded one (intersection, union, inclusion in both directions)
         A, B, _ = rand_pair(rng, nmax=4)
